@@ -4,7 +4,8 @@ package scen
 // completed sync did not contain").
 //
 // Workload: seeded histories over one dataset of
-//   hstart(id) / hbatch(id|foreign|none) / hend(id|foreign)   real HTTP handler through the echo router
+//   hstart(id|none) / hbatch(id|foreign|none) / hend(id|foreign|none)   real HTTP handler through the echo router
+//   txn                                                       POST /transactions (real handler, Store.ExecuteTransaction) into the dataset
 //   jstart(j) / jbatch(j) / jend(j)                           what jobs.datasetSink does (Dataset API)
 //   sleep (past the lease), par{…}                            ops issued concurrently
 // with a lease timeout of 100-200 ms and hook-stretched windows between the
@@ -73,7 +74,7 @@ type C9Ent struct {
 }
 
 type C9Op struct {
-	K    string  `json:"k"` // hstart hbatch hend jstart jbatch jend sleep par
+	K    string  `json:"k"` // hstart hbatch hend txn jstart jbatch jend sleep par
 	ID   string  `json:"id,omitempty"`
 	Job  int     `json:"job,omitempty"`
 	Ents []C9Ent `json:"ents,omitempty"`
@@ -118,8 +119,8 @@ func c9Body(r *rand.Rand, avoid map[int]bool, allowDel bool, max int) []C9Ent {
 	return out
 }
 
-func genC9Case(r *rand.Rand, parPct int, hookPct int) C9Case {
-	c := C9Case{LeaseMs: 100 + 20*r.Intn(6)}
+func genC9Case(r *rand.Rand, parPct int, hookPct int, tmplPct int, leaseMs int) C9Case {
+	c := C9Case{LeaseMs: leaseMs}
 	tags := map[string]bool{}
 	L := c.LeaseMs
 	if r.Intn(100) < hookPct {
@@ -183,27 +184,41 @@ func genC9Case(r *rand.Rand, parPct int, hookPct int) C9Case {
 		}
 		return "Z"
 	}
-	start := func() C9Op {
+	startHTTP := func(idless bool) C9Op {
 		if len(active()) > 0 {
 			tags["supersede"] = true
 		}
-		if r.Intn(100) < 60 {
-			id := letters[nextLetter%len(letters)]
-			if nextLetter > 0 && r.Intn(100) < 15 {
-				id = letters[r.Intn(nextLetter)%len(letters)]
-				tags["id-reuse"] = true
-			} else {
-				nextLetter++
-			}
-			clients = append(clients, &c9Client{http: true, id: id})
-			tags["http-sync"] = true
-			return C9Op{K: "hstart", ID: id, Ents: c9Body(r, nil, false, 3)}
+		tags["http-sync"] = true
+		if idless { // HTTP sync without a sync id header
+			clients = append(clients, &c9Client{http: true, id: ""})
+			tags["idless-start"] = true
+			return C9Op{K: "hstart", Ents: c9Body(r, nil, false, 3)}
+		}
+		id := letters[nextLetter%len(letters)]
+		if nextLetter > 0 && r.Intn(100) < 15 {
+			id = letters[r.Intn(nextLetter)%len(letters)]
+			tags["id-reuse"] = true
+		} else {
+			nextLetter++
+		}
+		clients = append(clients, &c9Client{http: true, id: id})
+		return C9Op{K: "hstart", ID: id, Ents: c9Body(r, nil, false, 3)}
+	}
+	startJob := func() C9Op {
+		if len(active()) > 0 {
+			tags["supersede"] = true
 		}
 		j := nextJob
 		nextJob++
 		clients = append(clients, &c9Client{job: j})
 		tags["job-sync"] = true
 		return C9Op{K: "jstart", Job: j}
+	}
+	start := func() C9Op {
+		if r.Intn(100) < 60 {
+			return startHTTP(r.Intn(100) < 12)
+		}
+		return startJob()
 	}
 	batchOf := func(cl *c9Client, avoid map[int]bool) C9Op {
 		if cl.http {
@@ -235,8 +250,11 @@ func genC9Case(r *rand.Rand, parPct int, hookPct int) C9Case {
 			switch x := r.Intn(100); {
 			case x < 45:
 				b = batchOf(cl, avoid)
-			case x < 70:
+			case x < 65:
 				b = C9Op{K: "hbatch", Ents: c9Body(r, avoid, false, 2)}
+			case x < 82:
+				b = C9Op{K: "txn", Ents: c9Body(r, avoid, false, 2)}
+				tags["txn"] = true
 			default:
 				b = C9Op{K: "jbatch", Job: c9IncrJob, Ents: c9Body(r, avoid, false, 2)}
 			}
@@ -254,13 +272,100 @@ func genC9Case(r *rand.Rand, parPct int, hookPct int) C9Case {
 		return p
 	}
 	sleepOp := func() C9Op { tags["sleep"] = true; return C9Op{K: "sleep", Ms: L * 16 / 10} }
+	idlessEnd := func() C9Op { // an end request without a sync id header
+		tags["idless-end"] = true
+		op := C9Op{K: "hend"}
+		if r.Intn(3) == 0 {
+			op.Ents = c9Body(r, nil, false, 2)
+		}
+		// it IS the end of an id-less HTTP sync if that is the latest start
+		if l := latest(); l != nil && l.http && l.id == "" && !l.ended {
+			l.ended = true
+		}
+		return op
+	}
+	txnOp := func(allowDel bool) C9Op {
+		tags["txn"] = true
+		return C9Op{K: "txn", Ents: c9Body(r, nil, allowDel, 3)}
+	}
 
 	// prelude: populate
 	c.Ops = append(c.Ops, C9Op{K: "hbatch", Ents: c9Body(r, nil, false, 5)})
 	if r.Intn(2) == 0 {
 		c.Ops = append(c.Ops, C9Op{K: "hbatch", Ents: c9Body(r, nil, true, 3)})
 	}
-	n := 7 + r.Intn(10)
+	// directed opening: one of the orders that reading / earlier findings single out, with random bodies;
+	// the random walk below continues from whatever state it leaves
+	if r.Intn(100) < tmplPct {
+		add := func(ops ...C9Op) { c.Ops = append(c.Ops, ops...) }
+		maybe := func(pct int, f func()) {
+			if r.Intn(100) < pct {
+				f()
+			}
+		}
+		t := r.Intn(8)
+		tags[fmt.Sprintf("template-%d", t)] = true
+		switch t {
+		case 0: // HTTP sync superseded by a job sync, then an end request without id while the job sync runs / is abandoned
+			add(startHTTP(false))
+			h := latest()
+			maybe(50, func() { add(batchOf(h, nil)) })
+			add(startJob())
+			j := latest()
+			maybe(60, func() { add(batchOf(j, nil)) })
+			add(idlessEnd())
+			maybe(50, func() { add(batchOf(j, nil)) })
+			maybe(60, func() { add(endOf(j)) })
+		case 1: // transaction write into the dataset inside a sync
+			if r.Intn(2) == 0 {
+				add(startHTTP(r.Intn(8) == 0))
+			} else {
+				add(startJob())
+			}
+			cl := latest()
+			maybe(60, func() { add(batchOf(cl, nil)) })
+			add(txnOp(false))
+			tags["txn-in-sync"] = true
+			maybe(40, func() { add(batchOf(cl, nil)) })
+			add(endOf(cl))
+		case 2: // job sync superseded by an HTTP sync, the job ends anyway
+			add(startJob())
+			j := latest()
+			add(batchOf(j, nil), startHTTP(false))
+			h := latest()
+			add(endOf(j), batchOf(h, nil), endOf(h))
+		case 3: // header-less HTTP write inside a job sync, then a pause
+			add(startJob())
+			j := latest()
+			add(C9Op{K: "hbatch", Ents: c9Body(r, nil, false, 2)}, sleepOp(), batchOf(j, nil), endOf(j))
+			tags["plain-in-sync"] = true
+		case 4: // HTTP sync without id: header-less writes belong to it, ids are foreign
+			add(startHTTP(true))
+			h := latest()
+			add(batchOf(h, nil))
+			maybe(60, func() { add(C9Op{K: "hbatch", ID: "Z", Ents: c9Body(r, nil, false, 2)}); tags["foreign-batch"] = true })
+			maybe(40, func() { add(txnOp(false)); tags["txn-in-sync"] = true })
+			add(endOf(h))
+		case 5: // end request without id after the lease of an HTTP sync ran out
+			add(startHTTP(false), sleepOp(), idlessEnd())
+		case 6: // end request without id after a superseding job sync has ended
+			add(startHTTP(false), startJob())
+			j := latest()
+			maybe(60, func() { add(batchOf(j, nil)) })
+			add(endOf(j), idlessEnd())
+		case 7: // id-less HTTP sync superseded by a job sync; the HTTP client goes on without id
+			add(startHTTP(true))
+			h := latest()
+			add(startJob())
+			j := latest()
+			add(batchOf(h, nil), batchOf(j, nil), idlessEnd())
+			maybe(60, func() { add(endOf(j)) })
+		}
+	}
+	n := len(c.Ops) + 4 + r.Intn(8)
+	if n < 9 {
+		n = 7 + r.Intn(10)
+	}
 	for len(c.Ops) < n {
 		x := r.Intn(100)
 		act := active()
@@ -268,8 +373,12 @@ func genC9Case(r *rand.Rand, parPct int, hookPct int) C9Case {
 			switch {
 			case x < 50:
 				c.Ops = append(c.Ops, start())
-			case x < 75:
+			case x < 68:
 				c.Ops = append(c.Ops, C9Op{K: "hbatch", Ents: c9Body(r, nil, true, 3)})
+			case x < 72:
+				c.Ops = append(c.Ops, txnOp(true))
+			case x < 75:
+				c.Ops = append(c.Ops, idlessEnd())
 			case x < 80:
 				c.Ops = append(c.Ops, C9Op{K: "hbatch", ID: foreignID(), Ents: c9Body(r, nil, false, 2)})
 				tags["stray-id"] = true
@@ -299,17 +408,22 @@ func genC9Case(r *rand.Rand, parPct int, hookPct int) C9Case {
 		case x < 58:
 			c.Ops = append(c.Ops, C9Op{K: "hbatch", ID: foreignID(), Ents: c9Body(r, nil, false, 2)})
 			tags["foreign-batch"] = true
-		case x < 66:
+		case x < 63:
 			c.Ops = append(c.Ops, C9Op{K: "hbatch", Ents: c9Body(r, nil, false, 2)})
 			tags["plain-in-sync"] = true
-		case x < 71:
+		case x < 69:
+			c.Ops = append(c.Ops, txnOp(false))
+			tags["txn-in-sync"] = true
+		case x < 73:
 			c.Ops = append(c.Ops, C9Op{K: "hend", ID: foreignID()})
 			tags["foreign-end"] = true
-		case x < 81:
+		case x < 77:
+			c.Ops = append(c.Ops, idlessEnd())
+		case x < 84:
 			c.Ops = append(c.Ops, sleepOp())
-		case x < 92:
+		case x < 93:
 			c.Ops = append(c.Ops, start())
-		case x < 96 && parPct > 0:
+		case x < 97 && parPct > 0:
 			// parallel batches of one sync (what the pinned integration test does)
 			tags["par"] = true
 			p := C9Op{K: "par"}
@@ -371,6 +485,7 @@ func c9Open(ctx *Ctx, lease time.Duration) *c9Hub {
 	// the real middleware chain (logging + recover, security off) and the real dataset handler
 	mw := web.NewMiddleware(env, e, nil, env.Logger, &statsd.NoOpClient{})
 	web.RegisterDatasetHandler(e, env.Logger, mw, core.Dsm, core.Store, core.Bus, nil)
+	web.RegisterTxnHandler(e, env.Logger, mw, core.Store)
 	return &c9Hub{core: core, e: e, lease: lease, dir: dir}
 }
 
@@ -385,13 +500,17 @@ type c9Sync struct {
 	owner           string // "http:A" | "job:1"
 	id              string // sync id ("" for job syncs)
 	startOp         int
+	job             bool // job-driven (no id, never leased)
 	written         map[int]bool
-	foreignAccepted []int // ops: hbatch with another id answered 200 since the start
-	foreignEnds     []int // ops: end of a superseded job that returned nil since the start
-	sleeps          int   // sleep-past-lease ops since the start
-	hookSeqAtStart  int64 // hook event counter when the sync started
-	parBatches      int   // groups of concurrent batches accepted since the start
-	httpNoIDWrites  []int // ops: header-less HTTP write answered 200 inside a job sync
+	viaTxn          map[int]bool // the last accepted write of the entity inside this sync came through POST /transactions
+	maybeWritten    map[int]bool // body of a refused (410/5xx) end request issued inside this sync: may or may not have been stored
+	foreignAccepted []int        // ops: hbatch with another id answered 200 since the start
+	foreignHTTPEnds []int        // ops: HTTP end request of another / no sync answered 200 since the start
+	foreignEnds     []int        // ops: end of a superseded job that returned nil since the start
+	sleeps          int          // sleep-past-lease ops since the start
+	hookSeqAtStart  int64        // hook event counter when the sync started
+	parBatches      int          // groups of concurrent batches accepted since the start
+	httpNoIDWrites  []int        // ops: header-less HTTP write answered 200 inside a job sync
 }
 
 type c9Res struct {
@@ -437,6 +556,7 @@ func c09FullSync(ctx *Ctx) error {
 	parPct, _ := strconv.Atoi(ctx.Arg("par", "20"))
 	hookPct, _ := strconv.Atoi(ctx.Arg("hooks", "60"))
 	bulk, _ := strconv.Atoi(ctx.Arg("bulk", "0"))
+	tmplPct, _ := strconv.Atoi(ctx.Arg("templates", "30"))
 	if ctx.Replay != "" {
 		b, err := os.ReadFile(ctx.Replay)
 		if err != nil {
@@ -457,7 +577,12 @@ func c09FullSync(ctx *Ctx) error {
 		return nil
 	}
 	r := rand.New(rand.NewSource(ctx.Seed))
-	// one store per lease value (the timeout is a store-wide setting)
+	// the lease timeout is a store-wide setting: one value (100..200 ms) and one store per child;
+	// consecutive child seeds cycle through all six values
+	leaseMs := 100 + 20*int(((ctx.Seed%6)+6)%6)
+	if v, err := strconv.Atoi(ctx.Arg("lease", "")); err == nil && v > 0 {
+		leaseMs = v
+	}
 	hubs := map[int]*c9Hub{}
 	defer func() {
 		for _, h := range hubs {
@@ -465,7 +590,7 @@ func c09FullSync(ctx *Ctx) error {
 		}
 	}()
 	for i := 0; i < ctx.Cases; i++ {
-		c := genC9Case(r, parPct, hookPct)
+		c := genC9Case(r, parPct, hookPct, tmplPct, leaseMs)
 		if bulk > 0 && i == 0 {
 			c = c9BulkCase(r, bulk, c.LeaseMs)
 		}
@@ -602,6 +727,16 @@ func (r *c9Run) exec(op C9Op) (res c9Res) {
 	switch op.K {
 	case "hstart", "hbatch", "hend":
 		return r.post(op)
+	case "txn": // POST /transactions -> Store.ExecuteTransaction
+		req := httptest.NewRequest("POST", "/transactions", bytes.NewReader(gen.TxnPayload(map[string][]model.Ent{r.dsName: r.toModel(op.Ents)})))
+		req.Header.Set("Content-Type", "application/json")
+		rec := httptest.NewRecorder()
+		r.h.e.ServeHTTP(rec, req)
+		res := c9Res{Status: rec.Code}
+		if rec.Code != 200 {
+			res.Err = strings.TrimSpace(rec.Body.String())
+		}
+		return res
 	case "jstart": // jobs.datasetSink.startFullSync, as FullSyncPipeline.sync calls it
 		return jobRes(r.sink(op.Job).StartFullSync())
 	case "jbatch": // jobs.datasetSink.processEntities
@@ -918,7 +1053,7 @@ func (r *c9Run) judge(i int, par bool, ops []C9Op, res []c9Res, pre, post []C9En
 				r.obsTags["supersede"] = true
 				out.Stat("supersessions:"+strings.SplitN(r.cur.owner, ":", 2)[0]+"-by-"+op.K, 1)
 			}
-			r.cur = &c9Sync{startOp: i, written: map[int]bool{}, hookSeqAtStart: seq0}
+			r.cur = &c9Sync{startOp: i, written: map[int]bool{}, maybeWritten: map[int]bool{}, viaTxn: map[int]bool{}, hookSeqAtStart: seq0}
 			if op.K == "hstart" {
 				r.cur.owner, r.cur.id = "http:"+op.ID, op.ID
 				addBody(bodies, op.Ents)
@@ -927,8 +1062,10 @@ func (r *c9Run) judge(i int, par bool, ops []C9Op, res []c9Res, pre, post []C9En
 				}
 			} else {
 				r.cur.owner = "job:" + strconv.Itoa(op.Job)
+				r.cur.job = true
 			}
-		case "hbatch", "jbatch":
+		case "hbatch", "jbatch", "txn":
+			// a transaction carries no sync id and is never checked against one: it is a plain write into the dataset
 			isForeign := op.K == "hbatch" && r.cur != nil && op.ID != r.cur.id
 			if isForeign {
 				r.foreign = true
@@ -943,11 +1080,16 @@ func (r *c9Run) judge(i int, par bool, ops []C9Op, res []c9Res, pre, post []C9En
 				if r.cur != nil {
 					for _, e := range op.Ents {
 						r.cur.written[e.N] = true
+						r.cur.viaTxn[e.N] = op.K == "txn"
 					}
 					if isForeign && !(par && endOp != nil) {
 						r.cur.foreignAccepted = append(r.cur.foreignAccepted, i)
 					}
-					if op.K == "hbatch" && op.ID == "" && r.cur.id == "" {
+					if op.K == "txn" {
+						r.obsTags["txn-write-in-sync"] = true
+						out.Stat("txn_writes_inside_a_sync", 1)
+					}
+					if op.K == "hbatch" && op.ID == "" && r.cur.job {
 						r.cur.httpNoIDWrites = append(r.cur.httpNoIDWrites, i)
 						r.jobSyncGotHTTPWrite = true
 						r.obsTags["http-write-in-job-sync"] = true
@@ -1002,6 +1144,9 @@ func (r *c9Run) judge(i int, par bool, ops []C9Op, res []c9Res, pre, post []C9En
 					// a concurrent write may be ordered before or after the completion
 					mayTomb[n] = true
 				case w[n]:
+				case r.cur.maybeWritten[n]:
+					// body of a refused end request inside this sync: stored (then it counts as written) or not
+					mayTomb[n] = true
 				default:
 					mustTomb[n] = true
 				}
@@ -1010,11 +1155,13 @@ func (r *c9Run) judge(i int, par bool, ops []C9Op, res []c9Res, pre, post []C9En
 			switch {
 			case len(r.cur.foreignEnds) > 0:
 				qual = "after-superseded-job-end" // a superseded job's end already ran inside this sync
-			case r.cur.id == "" && (len(r.cur.httpNoIDWrites) > 0 || r.jobSyncGotHTTPWrite):
+			case len(r.cur.foreignHTTPEnds) > 0:
+				qual = "after-foreign-http-end-accepted" // an HTTP end request that is not this sync's was answered 200 inside it
+			case r.cur.job && (len(r.cur.httpNoIDWrites) > 0 || r.jobSyncGotHTTPWrite):
 				qual = "http-write-leased-job-sync" // a header-less HTTP write was accepted inside this or an earlier job sync
 			case par:
 				qual = "concurrent-write"
-			case r.cur.id == "" && r.hookCount(r.cur.hookSeqAtStart, c9HookLease, "exit") > 0:
+			case r.cur.job && r.hookCount(r.cur.hookSeqAtStart, c9HookLease, "exit") > 0:
 				// a job sync never has a lease of its own: a lease goroutine of another (HTTP) sync finished while it ran
 				qual = "lease-goroutine-finished-inside-job-sync"
 			case r.cas.Hooks[c9HookLease] > 0 && leaseExits > 0:
@@ -1047,10 +1194,18 @@ func (r *c9Run) judge(i int, par bool, ops []C9Op, res []c9Res, pre, post []C9En
 		case endRes.Status == 200 && r.cur == nil:
 			context = "end-200-without-sync"
 			addBody(bodies, endOp.Ents)
-		case endRes.Status == 200: // HTTP end with a foreign id accepted
+		case endRes.Status == 200: // HTTP end request that does not belong to the current sync accepted
 			context = "foreign-end-accepted"
+			if r.cur.job {
+				// an HTTP end request can never be the end of a job-driven sync (only the job's own end is)
+				context = "http-end-accepted-in-job-sync"
+			}
 			addBody(bodies, endOp.Ents)
-			r.viol(i, "foreign-end-accepted", fmt.Sprintf("end request with sync id %q answered 200 while sync %s is the current one", endOp.ID, r.cur.owner), "409", 200)
+			for _, e := range endOp.Ents {
+				r.cur.written[e.N] = true
+			}
+			r.cur.foreignHTTPEnds = append(r.cur.foreignHTTPEnds, i)
+			r.viol(i, context, fmt.Sprintf("end request with sync id %q answered 200 while sync %s is the current one", endOp.ID, r.cur.owner), "409 or 410", 200)
 		case endRes.Status == 409:
 			if !par {
 				context = "rejected-409"
@@ -1063,6 +1218,11 @@ func (r *c9Run) judge(i int, par bool, ops []C9Op, res []c9Res, pre, post []C9En
 				context = "gone-410"
 			}
 			addBody(maybeBodies, endOp.Ents)
+			if r.cur != nil && !own {
+				for _, e := range endOp.Ents {
+					r.cur.maybeWritten[e.N] = true
+				}
+			}
 			r.expiry = true
 			r.obsTags["end-410"] = true
 			if own {
@@ -1087,6 +1247,11 @@ func (r *c9Run) judge(i int, par bool, ops []C9Op, res []c9Res, pre, post []C9En
 				context = "failed-end"
 			}
 			addBody(maybeBodies, endOp.Ents)
+			if r.cur != nil && !own {
+				for _, e := range endOp.Ents {
+					r.cur.maybeWritten[e.N] = true
+				}
+			}
 			out.Stat(fmt.Sprintf("end_refused_%d", endRes.Status), 1)
 			r.obsTags["end-refused-5xx"] = true
 			if own {
@@ -1106,6 +1271,11 @@ func (r *c9Run) judge(i int, par bool, ops []C9Op, res []c9Res, pre, post []C9En
 		}
 	}
 	tombs := map[int]int{}
+	writtenDeleted := map[int]bool{}
+	var viaTxn map[int]bool
+	if completing {
+		viaTxn = r.cur.viaTxn
+	}
 	stored410 := 0
 	var written map[int]bool
 	if completing {
@@ -1125,6 +1295,7 @@ func (r *c9Run) judge(i int, par bool, ops []C9Op, res []c9Res, pre, post []C9En
 		}
 		switch {
 		case d.Del && completing && written[d.N]:
+			writtenDeleted[d.N] = true
 			note("written-deleted", fmt.Sprintf("e%d was written during the sync and got a tombstone", d.N))
 		case d.Del:
 			note("spurious-tombstone", fmt.Sprintf("tombstone for e%d is not allowed by the recorded responses", d.N))
@@ -1154,6 +1325,7 @@ func (r *c9Run) judge(i int, par bool, ops []C9Op, res []c9Res, pre, post []C9En
 	for n, b := range bodies {
 		if postLatest[n] != b {
 			if postLatest[n].Del && !b.Del {
+				writtenDeleted[n] = true
 				note("written-deleted", fmt.Sprintf("e%d was written with %+v by a request answered 200 but is deleted afterwards", n, b))
 			} else {
 				note("written-not-live", fmt.Sprintf("e%d: latest is %+v, last accepted write was %+v", n, postLatest[n], b))
@@ -1200,6 +1372,17 @@ func (r *c9Run) judge(i int, par bool, ops []C9Op, res []c9Res, pre, post []C9En
 	switch context {
 	case "http-complete", "job-complete":
 		class = context + "/" + symptom
+		if symptom == "written-deleted" && len(writtenDeleted) > 0 {
+			all := true
+			for n := range writtenDeleted {
+				if !viaTxn[n] {
+					all = false
+				}
+			}
+			if all { // narrower than any history-level attribution: exactly the transaction-written entities were lost
+				qual = "written-by-transaction"
+			}
+		}
 		if qual != "" {
 			class += "+" + qual
 		}
